@@ -64,8 +64,8 @@ impl Check for C09 {
     }
     fn budget(&self, tier: Tier) -> Budget {
         match tier {
-            Tier::Quick => Budget { wall_secs: 20, max_cases: 300_000, checkpoint_every: 4096, workers: 16 },
-            Tier::Thorough => Budget { wall_secs: 180, max_cases: 30_000_000, checkpoint_every: 4096, workers: 16 },
+            Tier::Quick => Budget { wall_secs: 40, max_cases: 3_000_000, checkpoint_every: 4096, workers: 16 },
+            Tier::Thorough => Budget { wall_secs: 600, max_cases: 100_000_000, checkpoint_every: 4096, workers: 16 },
         }
     }
     fn generate(&self, seed: u64, idx: u64, _tier: Tier) -> Value {
